@@ -13,7 +13,7 @@ var intrinsicNames = map[string]bool{
 	"vCover": true, "vAssertBytesEqual": true, "vTag": true, "vRegister": true, "vEvent": true,
 	"vFloat64": true, "vIsSymbolic": true, "vGhostCount": true, "vGhostInt": true, "vFreshBytes": true,
 	"vBytesEq": true, "vNative": true, "vHashOf": true, "vSealed": true, "vAssertStrEqual": true,
-	"vASCII": true, "vObjID": true, "vLog": true, "vFromRNG": true,
+	"vASCII": true, "vObjID": true, "vLog": true, "vFromRNG": true, "vAllocLimit": true,
 }
 
 func isHarnessIntrinsic(n string) bool { return intrinsicNames[n] }
@@ -168,6 +168,12 @@ func (in *Interp) intrinsic(fn *ssa.Function, args []Value) Value {
 			cs = append(cs, tb.Or(tb.SLe(ln, ii), tb.ULt(in.memRead(m, tb.Add(off, ii)), tb.Const(8, 0x80))))
 		}
 		return tb.And(cs...)
+	case "vAllocLimit":
+		limit := in.toInt(args[0].(*Term))
+		in.allocHook = func(n *Term) {
+			in.mustHold(tb.SLe(n, limit), "alloc", "allocation out of proportion to the bytes received")
+		}
+		return nil
 	case "vFromRNG":
 		s := args[0].(SliceV)
 		if !s.Len.IsConst() {
